@@ -7,7 +7,8 @@ from .. import link
 from ..absint import Interp, Observer
 from ..cfg import CFG, ENTRY, EXIT
 from ..core import AnalysisError, norm, walk_no_nested
-from ..regionmodel import (REGION, RegionLib, assigns_cache, direct_mutations,
+from ..regionmodel import (REGION, SET_MUTATORS, RegionLib, assigns_cache,
+                           direct_mutations,
                            is_cache_reset, levelset_owner, linear,
                            pixeldict_aliases, region_methods, self_calls)
 
@@ -167,6 +168,14 @@ MUTANTS = [
     ("removed numpy symbol", "AegeanTools/regions.py",
      "result = np.isin(pix, list(pixelset))",
      "result = np.in1d(pix, list(pixelset))", "C08-R7"),
+    ("save empties the cache in place (seed C12b)", "AegeanTools/regions.py",
+     "        cPickle.dump(self, open(mimfile, 'wb'), protocol=2)",
+     "        self.demoted.clear()\n"
+     "        cPickle.dump(self, open(mimfile, 'wb'), protocol=2)", "C08-R9"),
+    ("operand's flattened set consumed in place", "AegeanTools/regions.py",
+     "        opd = set(other.get_demoted())\n        self.pixeldict[self.maxdepth].difference_update(opd)",
+     "        opd = other.get_demoted()\n        opd &= self.pixeldict[self.maxdepth]\n"
+     "        self.pixeldict[self.maxdepth].difference_update(opd)", "C08-R9"),
 ]
 TWINS = [
     ("shift instead of floor division", "AegeanTools/regions.py",
@@ -209,6 +218,7 @@ def run(ctx):
     r6_levels(ctx, ci, "C08-R6")
     # ------------------------------------------------------------- R8
     r8(ctx, ci)
+    r9_cache_alias(ctx, ci, "C08-R9")
     # ------------------------------------------------------------- R7
     n = link.check(ctx, ["regions.Region." + m for m in ci.methods] +
                    ["MIMAS.combine_regions", "MIMAS.mask2mim",
@@ -983,6 +993,79 @@ def r8(ctx, ci):
               "flattens the region, so a read-only query changes a later "
               "answer" % ([b[0] for b in bad], bad[0][2] if bad else ""),
               {"methods": [b[0] for b in bad]}, ga.node)
+
+
+def r9_cache_alias(ctx, ci, rule):
+    """The cache attribute may alias the deepest level set (the builder
+    stores the set itself, not a copy).  Then the cache, and everything
+    handed out by get_demoted(), must never be modified in place."""
+    prog = ctx.prog
+    ctx.rule(rule, "aliasing: _demote_all stores the deepest level set "
+             "itself in self.demoted, so the cache (and whatever "
+             "get_demoted() returns) is only ever re-bound or copied, never "
+             "modified in place -- anywhere in the package")
+    aliasing = []
+    for m, fi in ci.methods.items():
+        al = pixeldict_aliases(fi.node)
+        for st in walk_no_nested(fi.node):
+            if assigns_cache(st):
+                v = st.value
+                if levelset_owner(v, al) is not None or (
+                        isinstance(v, ast.Name) and any(
+                            isinstance(a, ast.Assign) and
+                            len(a.targets) == 1 and
+                            isinstance(a.targets[0], ast.Name) and
+                            a.targets[0].id == v.id and
+                            levelset_owner(a.value, al) is not None
+                            for a in walk_no_nested(fi.node))):
+                    aliasing.append((fi, st))
+    if not aliasing:
+        ctx.ob(rule, ci.methods["__init__"], "the cache never aliases a "
+               "level set (always a copy)", True, {}, None)
+        return
+    INPLACE_AUG = (ast.BitOr, ast.BitAnd, ast.BitXor, ast.Sub)
+
+    def is_cache_expr(e, names):
+        if isinstance(e, ast.Attribute) and e.attr == "demoted":
+            return True
+        if isinstance(e, ast.Call) and isinstance(e.func, ast.Attribute) \
+                and e.func.attr == "get_demoted":
+            return True
+        return isinstance(e, ast.Name) and e.id in names
+    n = 0
+    for fi in prog.functions.values():
+        names = set()
+        for st in walk_no_nested(fi.node):
+            if isinstance(st, ast.Assign) and len(st.targets) == 1 and \
+                    isinstance(st.targets[0], ast.Name) and \
+                    is_cache_expr(st.value, ()):
+                names.add(st.targets[0].id)
+        for x in walk_no_nested(fi.node):
+            bad = None
+            if isinstance(x, ast.Call) and \
+                    isinstance(x.func, ast.Attribute) and \
+                    x.func.attr in SET_MUTATORS and \
+                    is_cache_expr(x.func.value, names):
+                bad = x
+            elif isinstance(x, ast.AugAssign) and \
+                    isinstance(x.op, INPLACE_AUG) and \
+                    is_cache_expr(x.target, names):
+                bad = x
+            if isinstance(x, (ast.Attribute, ast.Call)) and \
+                    is_cache_expr(x, ()):
+                n += 1
+            if bad is not None:
+                ctx.check(rule, fi, "in-place update " + norm(bad, 60), False,
+                          "%s modifies the flattened cache in place; after "
+                          "any query the cache IS the deepest level set "
+                          "(%s in %s), so this silently changes the region "
+                          "itself and every later answer / export" %
+                          (norm(bad, 60), norm(aliasing[0][1]),
+                           aliasing[0][0].short), node=bad)
+    ctx.ob(rule, aliasing[0][0], "cache aliases a level set; %d uses of "
+           "the cache checked for in-place updates" % n, True, {},
+           aliasing[0][1])
+    ctx.floor(rule, n, 6, "uses of Region.demoted / get_demoted()")
 
 
 def _fmt(ab):
